@@ -89,7 +89,20 @@ RULE = ("inputs from a token/whitespace grammar (extreme and near-extreme values
         "by the executor, token X:twin on disagreement); the reader built by make_io! in a child process fed through a pipe chunk "
         "by chunk (mode M0) and with every scripted Interrupted delivered as a real signal-interrupted read(2) (mode M1); B in "
         "the case is the largest room the Reader offered to Read::read in that case, boundary cases aim at that observed "
-        "capacity.  A separate small stream of out-of-contract cases (reads past the end, malformed or "
+        "capacity.  Byte patterns a reader might treat specially (for the Reader and the model they are ordinary bytes): inputs that BEGIN "
+        "with EF BB BF, FE FF, FF FE, 00, '#!', a lone EF, EF BB (both tiers; 18 more: UTF-32/UTF-7/GB18030 marks, doubled and "
+        "near-miss marks, ESC, Ctrl-Z, Ctrl-D, comment openers, NBSP, backslash) followed by tokens / lines / only white space / "
+        "nothing, read as String, char by char, integer, read_line, read_lines, is_eof, under every split of the first 5 bytes "
+        "(first read of 1, 2, 3 .. bytes), byte by byte, Interrupted before the first read and inside the first bytes, also after "
+        "leading white space, with the Reader moved before its first read, beside a second Reader and through make_io! on a pipe whose "
+        "first write is short; 24 such patterns (marks, NBSP/NEL/LS/PS/ideographic space/ZWSP, backslash-newline, quotes, comment "
+        "openers, ESC, Ctrl-Z, NUL, LF CR, CR CR LF) in the MIDDLE (between tokens, at the start of a later line, inside a token) with "
+        "every split of the bytes around them; 17 patterns at the END (Ctrl-Z, Ctrl-D, NUL, marks, lone CR, truncated UTF-8) with "
+        "every split of the last bytes and Interrupted before the read that reports the end, is_eof before every token; every byte "
+        "value 0..255 as first byte, last byte and first byte of the second line; a mark at the start, at the first byte of the "
+        "second buffer-load and at the end of a > BUF input; 24 decorated number tokens ('+5', 0x1f, 1_000, 1e3, non-ASCII digits..: "
+        "malformed for the Reader); one read per line (terminal-like delivery).  "
+        "A separate small stream of out-of-contract cases (reads past the end, malformed or "
         "out-of-range tokens) only requires model = implementation (debug: same panic point; release: same values up to the "
         "model's panic).  non-trivial = the script ends without panic and the schedule has >= 2 data chunks or an Interrupted")
 TRUSTED = ["executor harness/crates/c08 (a std::io::Read serving the scripted schedule, never more than the requested length; "
@@ -353,14 +366,15 @@ def sched_kind(c):
 
 
 def classify(c, obs):
+    fam = (c["fam"] + ":") if c.get("fam") else ""
     if c.get("ooc"):
-        return "out-of-contract/" + ("panic" if obs.endswith("P") else "value")
+        return fam + "out-of-contract/" + ("panic" if obs.endswith("P") else "value")
     kinds = set()
     for o in c["ops"]:
         kinds.add("line" if o in ("l", "L") else "eof" if o == "e" else "moved" if o == "m" else
                   "tuple" if o[0] == "t" and ":" in o else "vec-of-tuple" if o.startswith("vt:") else
                   "nested-tuple" if o.startswith("nt:") else "vec" if o[0] == "v" else "token")
-    return sched_kind(c) + "/" + "+".join(sorted(kinds)) + ("/panic" if obs.endswith("P") else "")
+    return fam + sched_kind(c) + "/" + "+".join(sorted(kinds)) + ("/panic" if obs.endswith("P") else "")
 
 
 def known_finding(c, obs, profile):
@@ -712,6 +726,15 @@ def boundary_cases(rng, tier, B):
     out.append(case(d1, [len(d1)], ["L"]))
     out.append(case(d2, [B - 1, len(d2)], ["l", "m", "l", "l", "l", "e"]))
     out.append(case(b" " * (2 * B + 1) + b"5", [2 * B + 2], ["e", "i32", "e"]))
+    # a UTF-8 byte-order mark at the very start of the input, again as the first bytes of the second buffer-load, and at the end
+    mark = b"\xef\xbb\xbf"
+    d3 = mark + b"a" * (B - 3) + mark + b"hi\r\n" + mark
+    out.append(case(d3, [B, len(d3)], ["L", "e"], fam="magic-boundary"))
+    if not quick:
+        out.append(case(d3, [2, B - 2, len(d3)], ["l", "l", "l", "e"], fam="magic-boundary"))
+        out.append(case(d3, [B + 1, 1, len(d3)], ["L", "e"], fam="magic-boundary"))
+        out.append(case(d3, ["I", 1, "I", B - 1, "I", 3, len(d3)], ["s", "m", "s", "e"], fam="magic-boundary"))
+        out.append(case(d3, [B, 2, len(d3)], ["L", "e"], mode="M0", fam="magic-boundary"))
     # the same long line through make_io! and a pipe
     out.append(case(d1, [B - 1, 3, len(d1)], ["L"], mode="M0"))
     if not quick:
@@ -864,6 +887,241 @@ def make_io_cases(rng, tier):
     return out
 
 
+# ----------------------------------------------------------------------------- byte patterns a reader might treat specially
+# For the Reader every one of these is ordinary data (non-whitespace bytes unless they contain SP TAB LF FF CR).  A reader
+# that recognises such a pattern only when it sits contiguously in what one read() delivered gives schedule-dependent results.
+# at the START of the input: UTF-8 / UTF-16 byte-order marks, NUL, "#!", a truncated UTF-8 mark ...
+MAGIC_START = [b"\xef\xbb\xbf", b"\xfe\xff", b"\xff\xfe", b"\x00", b"#!", b"\xef", b"\xef\xbb"]
+# ... UTF-32 / UTF-7 / GB18030 marks, a doubled mark, near misses of the mark, ESC sequence, Ctrl-Z, Ctrl-D, comment openers
+MAGIC_START_MORE = [b"\xff\xfe\x00\x00", b"\x00\x00\xfe\xff", b"+/v8", b"\x84\x31\x95\x33", b"\xef\xbb\xbf\xef\xbb\xbf",
+                    b"\xef\xbb\xbe", b"\xef\xbf\xbe", b"\xbb\xbf", b"\x1b[0m", b"\x1a", b"\x04", b"//", b"#", b"%", b"<?", b"\x00\x00",
+                    b"\xc2\xa0", b"\\"]
+# in the MIDDLE (after a token / at the start of a later line / inside a token): marks again, multi-byte sequences that are
+# white space or line ends for Unicode-aware code (NBSP, NEL, LS, PS, ideographic space, ZWSP), backslash-newline, comment
+# openers, quotes, ESC, Ctrl-Z, NUL, reversed / doubled line ends
+MAGIC_MID = [b"\xef\xbb\xbf", b"\xfe\xff", b"\xc2\xa0", b"\xc2\x85", b"\xe2\x80\xa8", b"\xe2\x80\xa9", b"\xe3\x80\x80", b"\xe2\x80\x8b",
+             b"\\\n", b"\\\r\n", b"\\n", b"#", b"#!", b"//", b"\"", b"'", b"\x1b[K", b"\x1a", b"\x00", b"\x04", b"\n\r", b"\r\r\n", b"\x08", b"\x7f"]
+# at the END: DOS end-of-file Ctrl-Z, Ctrl-D, NUL terminators, a mark, lone CR, backslash, a Ctrl-Z after the last line end
+MAGIC_END = [b"\x1a", b"\x04", b"\x00", b"\x00\x00", b"\xef\xbb\xbf", b"\xff\xfe", b"\r", b"\\", b"\n\x1a", b"\r\n\x1a", b"\x1a\n",
+             b"\x1a\x1a", b"\xc2\xa0", b"\xe2\x80\xa8", b"\x0c", b"\xef", b"\xc2"]
+
+
+def py_tokens(data):
+    """number of whitespace-separated tokens (is_ascii_whitespace: SP TAB LF FF CR)"""
+    n, inside = 0, False
+    for b in data:
+        if b in WS:
+            inside = False
+        elif not inside:
+            n, inside = n + 1, True
+    return n
+
+
+def token_ops(data, eofs=False):
+    """the in-contract script that reads every token as a String, then asks for the end (eofs: is_eof before every token too)"""
+    return (["e", "s"] if eofs else ["s"]) * py_tokens(data) + ["e"]
+
+
+def window_scheds(n, a, w=5):
+    """every way to cut the w bytes from position a (clipped to the input), the bytes before and after as one chunk each"""
+    a = max(0, min(a, n))
+    w = min(w, n - a)
+    out = []
+    for comp in compositions(w):
+        out.append(([a] if a else []) + comp + ([n - a - w] if n - a - w else []))
+    return out
+
+
+def first_read_scheds(n, level=2):
+    """level 2: every split of the first 5 bytes (the rest in one read), byte by byte, Interrupted before the first read and
+    inside the first bytes, runs of Interrupted; level 1 (quick tier): the same splits, fewer Interrupted placements;
+    level 0 (quick tier, secondary scripts): first read of 1, 2, 3 bytes / everything, byte by byte, two Interrupted placements"""
+    out = window_scheds(n, 0)
+    if level == 0:
+        keep = [[n]] + [[k, n - k] for k in (1, 2, 3) if k < n]
+        out = [s for s in out if s in keep]
+    out.append([1] * n)
+    if level == 0:
+        out += [["I", 1, n], [2, "I", n]]
+    else:
+        out += [["I", n], ["I", 1, n], [1, "I", n], [2, "I", n], ["I", 3, n], [x for _ in range(n) for x in ("I", 1)] + ["I"]]
+    if level == 2:
+        out += [["I", 2, n], [3, "I", n], ["Ix3", 1, "Ix4", 1, n], [1, 1, "I", 1, "I", n], ["Ix17", 2, "Ix3", n]]
+    seen, res = set(), []
+    for s in out:
+        s = norm_sched(s, n)
+        if tuple(s) not in seen:
+            seen.add(tuple(s))
+            res.append(s)
+    return res
+
+
+def start_scripts(p):
+    """(input, ops, out of contract?, in the quick core?) for a start pattern p: String, char, integer, read_line(s), is_eof,
+    followed by tokens / lines / only white space / nothing"""
+    nonws = all(b not in WS for b in p)
+    k = len(p)
+    out = [
+        (p + b"hi", token_ops(p + b"hi"), False, True),                                  # String: the mark is part of the token
+        (p + b"hi", ["c"] * (k + 2) + ["e"], not nonws, True),                           # char by char
+        (p + b"12 5", ["i32", "i32"], True, True),                                       # integer: not a digit -> the model's panic
+        (p + b" 12", (["s"] if nonws else []) + ["i32", "e"], not nonws, False),         # integer after the mark was read as a token
+        (p + b"hi\r\nx", ["l", "l", "l"], False, True),                                  # read_line
+        (p + b"\nhi\n", ["L", "e"], False, True),                                        # read_lines, the mark is a line of its own
+        (p + b" \n", ["e"] + token_ops(p + b" \n"), False, True),                        # is_eof, only white space after the mark
+        (p, ["e", "l", "l"], False, True),                                               # nothing but the mark
+        (p, ["L"], False, False),
+        (p, token_ops(p), False, False),
+        (p + b"\r\n", ["l", "l", "e"], False, False),
+        (p + b"hi 7\n", ["s", "u8", "e"], not nonws, False),
+        (b" \n" + p + b"hi", token_ops(b" \n" + p + b"hi"), False, False),               # the mark after leading white space
+        (b"\n" + p + b"hi", ["l", "l", "l"], False, False),
+        (p + p + b"a", token_ops(p + p + b"a"), False, False),
+        (p + b" hi", token_ops(p + b" hi"), False, False),
+    ]
+    return out
+
+
+def magic_start_cases(rng, tier):
+    """inputs that BEGIN with a byte sequence a reader might treat specially x every split of the first 5 bytes"""
+    quick = (tier == "quick")
+    out = []
+    for pi, p in enumerate(MAGIC_START + MAGIC_START_MORE):
+        main = pi < len(MAGIC_START)
+        for si, (data, ops, ooc, core) in enumerate(start_scripts(p)):
+            n = len(data)
+            if quick and not main and si not in (0, 4 + pi % 2 * 2):
+                continue
+            scheds = first_read_scheds(n, 2 if not quick else 1 if (main and core) else 0)
+            for s in scheds:
+                out.append(case(data, s, ops, fam="magic-start", **({"ooc": True} if ooc else {})))
+        # the Reader moved before its first read; a second Reader alive; the reader of make_io! on a pipe whose first write is short
+        if main or not quick:
+            data, ops = p + b"hi\r\nx y", ["s", "l", "l", "e"] if all(b not in WS for b in p) else ["L", "e"]
+            n = len(data)
+            out.append(case(data, [1, n], ["m"] + ops, fam="magic-start"))
+            out.append(case(data, [2, n], ops, mode="T%d" % (pi % 3), fam="magic-start"))
+            for k in ((1, 2, 3) if not quick else (1 + pi % 3,)):
+                out.append(case(data, [k, n], ops, mode="M0", fam="magic-start"))
+            out.append(case(data, ["I", 1, "I", 1, 1, n], ops, mode="M1", fam="magic-start"))
+            if not quick:
+                out.append(case(data, [n], ops, mode="M0", fam="magic-start"))
+                out.append(case(data, [1] * n, ops, mode="M1", fam="magic-start"))
+    return out
+
+
+def magic_mid_cases(rng, tier):
+    """the same kind of sequence after a token, at the start of a later line and inside a token x every split of the 5 bytes
+    around its first byte (a read that begins exactly with it, ends inside it, ...), Interrupted before the read that begins with it"""
+    quick = (tier == "quick")
+    out = []
+    for mi, m in enumerate(MAGIC_MID):
+        shapes = [(b"a\n", b"b\n"), (b"1 ", b" 2"), (b"ab", b"cd\n"), (b"x\r\n", b"\r\ny")]
+        for hi, (pre, post) in enumerate(shapes):
+            rot = mi % 4 if mi % 4 != 1 else 0
+            if quick and hi not in (1, rot):
+                continue
+            data = pre + m + post
+            n, a = len(data), len(pre)
+            nl = data.find(b"\n")
+            scripts = [token_ops(data, eofs=(mi + hi) % 2 == 1), ["L", "e"], ["l", "s", "e"] if nl >= 0 and py_tokens(data[nl + 1:]) else ["l", "l"]]
+            for oi, ops in enumerate(scripts):
+                if quick and oi != (0 if hi == 1 else 1):
+                    continue
+                scheds = [[n], [1] * n] + window_scheds(n, a - 1) + [[a, "I", n - a], ["I", a, "Ix3", 1, n]]
+                if quick:
+                    scheds = scheds[:2] + window_scheds(n, a - 1, 4) + scheds[-2:]
+                elif n <= 7:
+                    scheds = list(compositions(n)) + scheds[-2:]
+                for s in scheds:
+                    out.append(case(data, s, ops, fam="magic-mid"))
+        if not quick or mi % 4 == 0:
+            data = b"7 " + m + b"q\r\n" + m + b"\n"
+            out.append(case(data, [2, len(m), len(data)], ["u8", "m", "L"], fam="magic-mid"))
+            out.append(case(data, [2, 1, len(data)], ["u8", "L", "e"], mode="M%d" % (mi // 4 % 2), fam="magic-mid"))
+    return out
+
+
+def magic_end_cases(rng, tier):
+    """... and at the END of the input x every split of the last 5 bytes, Interrupted before the last data and before the read
+    that reports the end"""
+    quick = (tier == "quick")
+    out = []
+    for mi, m in enumerate(MAGIC_END):
+        shapes = [b"hi\n", b"7 ", b"ab", b"x\r\n\r\n", b""]
+        for hi, pre in enumerate(shapes):
+            if quick and hi not in (mi % 5, (mi + 2) % 5):
+                continue
+            data = pre + m
+            n = len(data)
+            for oi, ops in enumerate([token_ops(data, eofs=True), ["L", "e"], ["l", "l", "l", "e"]]):
+                if quick and oi == 2 - (mi + hi) % 3:
+                    continue
+                w = 4 if quick else 5
+                scheds = window_scheds(n, n - w) if n > w else list(compositions(n))
+                scheds += [[1] * n, [n, "I"], [max(1, n - 1), "I", 1, "Ix3"], ["I", max(1, n - len(m)), "I", n]]
+                for s in scheds:
+                    out.append(case(data, s, ops, fam="magic-end"))
+        if not quick or mi % 4 == 0:
+            data = b"a b\n" + m
+            out.append(case(data, [4, len(data)], ["s", "m", "s", "L", "e"] if py_tokens(m) == 0 else ["s", "m", "s", "l", "L", "e"], fam="magic-end"))
+            out.append(case(data, [len(data) - 1, "I", 1, "I"], ["L"], mode="M1", fam="magic-end"))
+    return out
+
+
+# number-like tokens with decorations that a more liberal integer parser accepts ('+', radix prefixes, digit separators,
+# exponents, suffixes, non-ASCII digits): for the Reader every one of them is malformed (the model panics at the first
+# non-digit in the debug profile, whatever the schedule)
+MAGIC_NUM = [b"+5", b"+0", b"-+1", b"+-1", b"0x1f", b"0b11", b"0o7", b"1_000", b"1'000", b"1,5", b"1.5", b"1e3", b"5L", b"5u", b"5u8",
+             b"\xd9\xa3", b"\xef\xbc\x91", b"\xe2\x88\x92" + b"5", b"--5", b"-", b"+", b"0-", b"1\x00", b"\x00" + b"1"]
+
+
+def magic_number_cases(rng, tier):
+    quick = (tier == "quick")
+    out = []
+    for ti, tok in enumerate(MAGIC_NUM):
+        ty = INT_NAMES[ti % len(INT_NAMES)]
+        data = tok + b" 7"
+        n = len(data)
+        scheds = list(compositions(n)) if (not quick and n <= 7) else [[n], [1] * n, [1, n], [2, n], [len(tok), n], ["I", 1, n]]
+        for s in scheds:
+            out.append(case(data, s, [ty, ty, "e"], ooc=True, fam="magic-number"))
+        # the same bytes are fine as a String token
+        out.append(case(data, [1, n] if ti % 2 else [n], ["s", ty, "e"], fam="magic-number"))
+    return out
+
+
+def linewise_sched(data):
+    """one read per line (what a terminal or a line-buffered writer on a pipe delivers)"""
+    out, cur = [], 0
+    for b in data:
+        cur += 1
+        if b == 10:
+            out.append(cur)
+            cur = 0
+    return out + ([cur] if cur else [])
+
+
+def byte_scan_cases(rng, tier):
+    """every byte value 0..255 as the FIRST byte of the input, as the LAST one and as the first byte of the second line;
+    whole, the byte alone in its read, byte by byte"""
+    quick = (tier == "quick")
+    out = []
+    for b in range(256):
+        bb = bytes([b])
+        places = [(bb + b"k\nz", 0), (b"k\nz" + bb, 3), (b"k\n" + bb + b"z\n", 2)]
+        for pi, (data, a) in enumerate(places):
+            n = len(data)
+            scripts = [token_ops(data), ["l", "L", "e"]]
+            scheds = [[n], norm_sched(([a] if a else []) + [1, n], n), [1] * n, norm_sched(["I"] + ([a] if a else []) + [1, "I", n], n)]
+            for oi, ops in enumerate(scripts):
+                for si, s in enumerate(scheds):
+                    if quick and (pi == 2 or si >= 2 or (oi + si + b) % 2 == 0 or (pi == 1 and (si != (b >> 1) % 2 or (b % 2 and 0x20 < b < 0x7f)))):
+                        continue
+                    out.append(case(data, s, ops, fam="byte-scan"))
+    return out
+
+
 def ooc_cases(rng, n):
     """outside the contract: reads past the end, malformed and out-of-range tokens"""
     out = []
@@ -983,6 +1241,24 @@ def generate(rng, tier):
     cases += type_boundary_cases(rng, tier)
     cases += signature_cases(rng, tier)
     cases += make_io_cases(rng, tier)
+    # 4b. byte patterns a reader might treat specially (start / middle / end of the input), every byte value at the edges
+    cases += magic_start_cases(rng, tier)
+    cases += magic_mid_cases(rng, tier)
+    cases += magic_end_cases(rng, tier)
+    cases += byte_scan_cases(rng, tier)
+    cases += magic_number_cases(rng, tier)
+    # one read per line for the hand-picked inputs and a fresh stream of scripts (its own rng fork: the streams above are unchanged)
+    r2 = rng.fork("linewise")
+    pool = [(d.encode("latin-1"), ops) for d, ops in HAND + LONG_HAND]
+    pool += [gen_script(r2, r2.range(1, 6), only_small=r2.chance(1, 2)) for _ in range(60 if quick else 600)]
+    for i, (data, ops) in enumerate(pool):
+        lw = linewise_sched(data)
+        if len(lw) >= 2:
+            cases.append(case(data, lw, ops, fam="linewise"))
+            if not quick or i % 4 == 0:
+                cases.append(case(data, [x for e in lw for x in ("I", e)] + ["I"], ops, fam="linewise"))
+            if not quick:
+                cases.append(case(data, lw, with_moves(r2, ops), mode="M0", fam="linewise"))
     # 5. out of contract: model = implementation only
     cases += ooc_cases(rng, 120 if quick else 1200)
     # 6. the real buffer boundary (expensive for Coq: spread evenly over the batch files)
@@ -1075,7 +1351,10 @@ MANIFEST = {
             "checks model = implementation and implementation |= pure parser on every case; the same case type also carries the "
             "observations of a Reader that is moved in memory between operations, of a Reader sharing the process with a second "
             "active Reader, of read_vec over tuples / nested tuples, and of the Reader that make_io! builds on the real stdin "
-            "(child process, pipe, real EINTR), so that these are decided by the same model_check / spec_check.",
+            "(child process, pipe, real EINTR), so that these are decided by the same model_check / spec_check.  The case generator "
+            "also places byte sequences that other readers treat specially (byte-order marks, NUL, '#!', Ctrl-Z, Unicode spaces, "
+            "backslash-newline, every single byte value) at the start, in the middle and at the end of the input and cuts the "
+            "delivery at every position around them: for the Reader they are data, whatever the first read returned.",
     "level_note": "Trusted: Coq kernel + vm_compute; the Rust executor and the Python case printer; std::io::Read modelled as "
                   "an oracle with the documented contract (no empty chunk before the end; Interrupted delivers nothing); the "
                   "theorems carry the hypothesis input length < 2^130 (loop fuel); theorems are about the model, the "
